@@ -19,7 +19,7 @@ class TlsRecord(ParsableBase):
 
     fragment = attr.ib(validator=attr.validators.instance_of((bytes, bytearray)))
     protocol_version = attr.ib(
-        default=TlsProtocolVersion(TlsVersion.TLS1),
+        default=attr.Factory(lambda: TlsProtocolVersion(TlsVersion.TLS1)),
         validator=attr.validators.instance_of(TlsProtocolVersion),
     )
     content_type = attr.ib(
